@@ -49,6 +49,10 @@ impl Router {
     }
 
     fn send(&self, message: Message) {
+        #[cfg(iwe_verif)]
+        crate::verif::point(crate::verif::Point::BeforeSend);
+        #[cfg(iwe_verif)]
+        let _after_send = crate::verif::PointOnDrop(crate::verif::Point::AfterSend);
         self.sender.send(message).unwrap()
     }
 
@@ -70,6 +74,8 @@ impl Router {
     }
 
     fn next_event(&self, inbox: &Receiver<Message>) -> Option<Message> {
+        #[cfg(iwe_verif)]
+        crate::verif::point(crate::verif::Point::LoopIdle);
         select! {
             recv(inbox) -> msg =>
                 msg.ok()
@@ -90,13 +96,22 @@ impl Router {
                         "Panic occurred with unknown cause".to_string()
                     };
                     error!("Panic message: {}", error_message);
+                    #[cfg(iwe_verif)]
+                    crate::verif::note_panic(&error_message);
                     false
                 });
 
+            #[cfg(iwe_verif)]
+            crate::verif::point(crate::verif::Point::LoopHandled);
+
             if shutdown {
+                #[cfg(iwe_verif)]
+                crate::verif::point(crate::verif::Point::LoopExit);
                 return Ok(());
             }
         }
+        #[cfg(iwe_verif)]
+        crate::verif::point(crate::verif::Point::LoopExit);
         bail!("client exited without proper shutdown sequence")
     }
 
@@ -105,7 +120,10 @@ impl Router {
             Message::Request(req) => {
                 let request = req;
                 let self_clone = self.clone();
+                #[cfg(not(iwe_verif))]
                 let _ = std::thread::spawn(move || self_clone.on_request(request));
+                #[cfg(iwe_verif)]
+                let _ = crate::verif::spawn(move || self_clone.on_request(request));
                 false
             }
             Message::Notification(notification) => self.on_notification(notification),
